@@ -4,6 +4,8 @@ This module defines the main class that holds a DocTest example
 import __future__
 import asyncio
 import ast
+import builtins
+import contextlib
 from collections import OrderedDict
 import traceback
 import warnings
@@ -750,7 +752,7 @@ class DocTest:
         # Use the same capture object for all parts in the test
         cap = utils.CaptureStdout(suppress=self._suppressed_stdout,
                                   enabled=needs_capture)
-        with warnings.catch_warnings(record=True) as self.warn_list:
+        with _restored_last_value(), warnings.catch_warnings(record=True) as self.warn_list:
             for partx, part in enumerate(self._parts):
 
                 if DEBUG:
@@ -1469,6 +1471,25 @@ class DocTest:
             barrier = self._color('====== </exec> ======', 'white')
             print(barrier)
         return summary
+
+
+@contextlib.contextmanager
+def _restored_last_value():
+    """
+    A part compiled in "single" mode hands the value of an expression statement
+    to :func:`sys.displayhook`, which stores it as ``builtins._``. Put back
+    what was there before, so that a doctest cannot see the last value of
+    the doctest that ran before it.
+    """
+    missing = object()
+    prev = getattr(builtins, '_', missing)
+    try:
+        yield
+    finally:
+        if prev is not missing:
+            builtins._ = prev
+        elif hasattr(builtins, '_'):
+            del builtins._
 
 
 def _traverse_traceback(tb):
